@@ -133,6 +133,29 @@ def build_harness():
         return exe
 
 
+def build_tools():
+    """The two command-line tools of the current tree (mmlc, mdslink), compiled with the harness
+    flags (ASan+UBSan) and linked against the library objects of build_harness(); cached in the
+    same build directory (same source hash).  Returns {'mmlc': path, 'mdslink': path}."""
+    bdir = os.path.dirname(build_harness())
+    tools = {"mmlc": os.path.join(REPO, "src", "mmlc.cpp"), "mdslink": os.path.join(REPO, "src", "platform", "mdslink.cpp")}
+    out = {n: os.path.join(bdir, n) for n in tools}
+    with Lock(".tools.lock"):
+        if all(os.path.exists(p) for p in out.values()):
+            return out
+        libobjs = sorted(os.path.join(bdir, "obj", f) for f in os.listdir(os.path.join(bdir, "obj")) if f.startswith("lib_"))
+        for n, src in tools.items():
+            obj = os.path.join(bdir, "obj", "tool_%s.o" % n)
+            s, rc, err = _compile((src, obj, CXXFLAGS))
+            if rc != 0:
+                raise InfraError("tool compile failed: %s\n%s" % (src, err[-3000:]))
+            r = subprocess.run(["g++", "-fsanitize=address,undefined", obj] + libobjs + ["-o", out[n] + ".tmp"], capture_output=True, text=True)
+            if r.returncode != 0:
+                raise InfraError("tool link failed: %s\n%s" % (n, r.stderr[-3000:]))
+            os.rename(out[n] + ".tmp", out[n])
+    return out
+
+
 # ------------------------------------------------------------------ Lean side
 def extract_tables():
     r = subprocess.run([sys.executable, os.path.join(ROOT, "tools", "extract_tables.py")], capture_output=True, text=True)
@@ -454,7 +477,11 @@ def run_check(spec, tier, seed, replay=None):
     reqs = [c.req for c in cases]
     secs = getattr(spec, "CASE_SECONDS", 10)
     hwork = getattr(spec, "workdir", lambda: None)()
-    impl, ncrash = run_harness_chunked(hexe, reqs, secs, chunk=getattr(spec, "CHUNK", 200), workdir=hwork)
+    if hasattr(spec, "run_impl"):
+        # the implementation side is not (only) the in-process harness, e.g. the built executables (C19)
+        impl, ncrash = spec.run_impl(hexe, reqs, secs)
+    else:
+        impl, ncrash = run_harness_chunked(hexe, reqs, secs, chunk=getattr(spec, "CHUNK", 200), workdir=hwork)
     if drv is not None:
         model = run_driver_chunked(drv, ["M " + r for r in reqs], chunk=getattr(spec, "CHUNK", 200))
         judge = run_driver_chunked(drv, ["S %s ## %s" % (r, a) for r, a in zip(reqs, impl)], chunk=getattr(spec, "CHUNK", 200))
@@ -578,7 +605,7 @@ def run_check(spec, tier, seed, replay=None):
 def shrink_case(spec, hexe, drv, req, key, secs, hwork):
     """Greedy structural shrinking: keep a candidate if it still fails with the same key."""
     def fails(r):
-        impl, _ = run_harness(hexe, [r], secs, hwork)
+        impl, _ = spec.run_impl(hexe, [r], secs) if hasattr(spec, "run_impl") else run_harness(hexe, [r], secs, hwork)
         j = run_driver(drv, ["S %s ## %s" % (r, impl[0])])[0] if drv else "skip"
         bad = j.startswith("fail") or impl[0].startswith("crash") or impl[0] == "timeout" or impl[0].startswith("uncaught:")
         if hasattr(spec, "extra_fail") and spec.extra_fail(Case(r), impl[0], j):
